@@ -896,12 +896,20 @@ end entry
     earlier columns and of the seed, not on their order or on parked incomplete states, provided scanning a
     parked state adds at most that state itself (`close_core`: `Column.add` deduplicates, `find_dot` looks up
     states by the non-terminal after the dot);
-    prediction and completion produce states with reset flags (`close_wf`). -/
-structure Engine.Lawful (eng : Engine ι) : Prop where
-  close_eps : ∀ d f f' s, (∀ e ∈ eng.close d f s, f e = f' e) → SetEq (eng.close d f s) (eng.close d f' s)
-  close_inc : ∀ d f s, (∀ e ∈ eng.close d f s, ∀ x ∈ f e, x.inc = false) →
+    prediction and completion produce states with reset flags (`close_wf`).
+    `ok d f s` names the passes the laws are claimed for (`Engine.Lawful`: all of them; the engine of the real
+    closure, `Model/IncrEarley.lean`: the passes that come to their end within the fuel, in which the covering cut
+    does not fire and which leave no `*` / `+` right-recursion state for `place_repetition_shortcut`);
+    `ok_eps`: whether a pass is one of them does not depend on what the scanner would do on states the pass
+    never holds. -/
+structure Engine.LawfulOn (eng : Engine ι)
+    (ok : List (Col ι) → (Entry ι → List (Entry ι)) → Col ι → Prop) : Prop where
+  ok_eps : ∀ d f f' s, ok d f s → (∀ e ∈ eng.close d f s, f e = f' e) → ok d f' s
+  close_eps : ∀ d f f' s, ok d f s → (∀ e ∈ eng.close d f s, f e = f' e) →
+    SetEq (eng.close d f s) (eng.close d f' s)
+  close_inc : ∀ d f s, ok d f s → (∀ e ∈ eng.close d f s, ∀ x ∈ f e, x.inc = false) →
     ∀ e, e.inc = true → (e ∈ eng.close d f s ↔ e ∈ s)
-  close_core : ∀ d d' f s s', All2 CoreEq d d' → CoreEq s s' →
+  close_core : ∀ d d' f s s', ok d f s → ok d' f s' → All2 CoreEq d d' → CoreEq s s' →
     (∀ e ∈ eng.close d f s, e.inc = true → ∀ x ∈ f e, x = e) →
     (∀ e ∈ eng.close d' f s', e.inc = true → ∀ x ∈ f e, x = e) →
     CoreEq (eng.close d f s) (eng.close d' f s')
@@ -909,15 +917,22 @@ structure Engine.Lawful (eng : Engine ι) : Prop where
     ∀ e ∈ eng.close d f s, e.WF eng
   trees_core : ∀ c c', CoreEq c c' → SetEq (eng.trees c) (eng.trees c')
 
+/-- the laws for every pass -/
+abbrev Engine.Lawful (eng : Engine ι) : Prop := eng.LawfulOn (fun _ _ _ => True)
+
 /-- additional laws for `can_continue`: when the completion-only closure of the seed has nothing unfinished,
     prediction has nothing to start from, so no state of the closed column waits for a terminal (the scanner
     adds nothing for a state that waits for no terminal); an empty column stays empty and holds no parse -/
-structure Engine.LawfulCC (eng : Engine ι) : Prop where
-  close_stuck : ∀ d f s, (∀ e, eng.want e.item = none → f e = []) →
+structure Engine.LawfulCCOn (eng : Engine ι)
+    (ok : List (Col ι) → (Entry ι → List (Entry ι)) → Col ι → Prop) (okc : List (Col ι) → Col ι → Prop) :
+    Prop where
+  close_stuck : ∀ d f s, ok d f s → okc d s → (∀ e, eng.want e.item = none → f e = []) →
     (∀ e ∈ eng.completeOnly d s, e.inc = false ∧ eng.finished e.item = true) →
     ∀ e ∈ eng.close d f s, eng.want e.item = none
   close_nil : ∀ d f, eng.close d f [] = []
   trees_nil : eng.trees [] = []
+
+abbrev Engine.LawfulCC (eng : Engine ι) : Prop := eng.LawfulCCOn (fun _ _ _ => True) (fun _ _ => True)
 
 theorem all2_setEq_coreEq : ∀ {d d' : List (Col ι)}, All2 SetEq d d' → All2 CoreEq d d'
   | _, _, .nil => .nil
@@ -945,37 +960,42 @@ structure EpsOK (eng : Engine ι) (f : Entry ι → List (Entry ι)) : Prop wher
   inc_self : ∀ e, e.WF eng → e.inc = true → ∀ x ∈ f e, x = e
 
 /-- ordinary states of the closed column: congruence in the ordinary states of earlier columns and seed -/
-theorem close_coreEq {eng : Engine ι} (hL : eng.Lawful) {d d' : List (Col ι)} {s s' : Col ι}
-    {f : Entry ι → List (Entry ι)} (hf : EpsOK eng f)
+theorem close_coreEq {eng : Engine ι} {ok : List (Col ι) → (Entry ι → List (Entry ι)) → Col ι → Prop}
+    (hL : eng.LawfulOn ok) {d d' : List (Col ι)} {s s' : Col ι}
+    {f : Entry ι → List (Entry ι)} (hf : EpsOK eng f) (hok : ok d f s) (hok' : ok d' f s')
     (hd : All2 CoreEq d d') (hs : CoreEq s s') (hwf : ∀ e ∈ s, e.WF eng) (hwf' : ∀ e ∈ s', e.WF eng) :
     CoreEq (eng.close d f s) (eng.close d' f s') :=
-  hL.close_core d d' f s s' hd hs
+  hL.close_core d d' f s s' hok hok' hd hs
     (fun e he hi => hf.inc_self e (hL.close_wf d f s hwf hf.wf e he) hi)
     (fun e he hi => hf.inc_self e (hL.close_wf d' f s' hwf' hf.wf e he) hi)
 
 /-- all states of the closed column, while something is left of the fragment (`hni`) -/
-theorem close_setEq {eng : Engine ι} (hL : eng.Lawful) {d d' : List (Col ι)} {s s' : Col ι}
+theorem close_setEq {eng : Engine ι} {ok : List (Col ι) → (Entry ι → List (Entry ι)) → Col ι → Prop}
+    (hL : eng.LawfulOn ok) {d d' : List (Col ι)} {s s' : Col ι}
     {f : Entry ι → List (Entry ι)} (hf : EpsOK eng f) (hni : ∀ e, e.WF eng → ∀ x ∈ f e, x.inc = false)
+    (hok : ok d f s) (hok' : ok d' f s')
     (hd : All2 CoreEq d d') (hs : SetEq s s') (hwf : ∀ e ∈ s, e.WF eng) :
     SetEq (eng.close d f s) (eng.close d' f s') := by
   have hwf' : ∀ e ∈ s', e.WF eng := fun e he => hwf e ((hs e).mpr he)
   intro x
   cases hi : x.inc with
   | true =>
-    rw [hL.close_inc d f s (fun e he => hni e (hL.close_wf d f s hwf hf.wf e he)) x hi,
-      hL.close_inc d' f s' (fun e he => hni e (hL.close_wf d' f s' hwf' hf.wf e he)) x hi]
+    rw [hL.close_inc d f s hok (fun e he => hni e (hL.close_wf d f s hwf hf.wf e he)) x hi,
+      hL.close_inc d' f s' hok' (fun e he => hni e (hL.close_wf d' f s' hwf' hf.wf e he)) x hi]
     exact hs x
   | false =>
-    have := close_coreEq hL hf hd hs.coreEq hwf hwf' x
+    have := close_coreEq hL hf hok hok' hd hs.coreEq hwf hwf' x
     simp only [mem_core, hi, and_true] at this
     exact this
 
 /-- the closed column under a scanner that agrees with `f` on well-formed states -/
-theorem close_eps_setEq {eng : Engine ι} (hL : eng.Lawful) {d : List (Col ι)} {s : Col ι}
+theorem close_eps_setEq {eng : Engine ι} {ok : List (Col ι) → (Entry ι → List (Entry ι)) → Col ι → Prop}
+    (hL : eng.LawfulOn ok) {d : List (Col ι)} {s : Col ι}
     {f f' : Entry ι → List (Entry ι)} (hfwf : ∀ e, e.WF eng → ∀ x ∈ f e, x.WF eng)
-    (hff : ∀ e, e.WF eng → f e = f' e) (hwf : ∀ e ∈ s, e.WF eng) :
-    SetEq (eng.close d f s) (eng.close d f' s) :=
-  hL.close_eps d f f' s (fun e he => hff e (hL.close_wf d f s hwf hfwf e he))
+    (hff : ∀ e, e.WF eng → f e = f' e) (hwf : ∀ e ∈ s, e.WF eng) (hok : ok d f s) :
+    SetEq (eng.close d f s) (eng.close d f' s) ∧ ok d f' s :=
+  ⟨hL.close_eps d f f' s hok (fun e he => hff e (hL.close_wf d f s hwf hfwf e he)),
+   hL.ok_eps d f f' s hok (fun e he => hff e (hL.close_wf d f s hwf hfwf e he))⟩
 
 theorem mem_seedAt {pend : List (Nat × Entry ι)} {k : Nat} {e : Entry ι} :
     e ∈ seedAt pend k ↔ (k, e) ∈ pend := by
@@ -1011,8 +1031,58 @@ def PState.WF (eng : Engine ι) (s : PState ι) : Prop := ∀ p ∈ s.pend, p.2.
 /-- nothing is scheduled beyond the current column (true after every `consume`) -/
 def PState.Settled (s : PState ι) : Prop := ∀ p ∈ s.pend, p.1 ≤ s.done.length
 
+section okdefs
+variable (eng : Engine ι) (R : ROracle) (md : Mode)
+variable (ok : List (Col ι) → (Entry ι → List (Entry ι)) → Col ι → Prop)
+
+/-! #### the passes of a run that the laws must cover -/
+
+/-- the pass of `procCol` -/
+def procOK (word : Units) (w : Nat) (s : PState ι) : Prop :=
+  ok s.done (epsScan eng R md s.done.length (word.drop w) w word.length) (seedAt s.pend s.done.length)
+
+/-- the passes of `feedFrom` -/
+def feedFromOK (word : Units) : Nat → Nat → PState ι → Prop
+  | _, 0, _ => True
+  | i, n + 1, s => procOK eng R md ok word (i / 8) s ∧
+      feedFromOK word (i + 1) n (procCol eng R md word (i / 8) s)
+
+/-- the pass of `lastCol` (the scan of the exhausted fragment, which yields the complete parses) -/
+def lastOK (s : PState ι) : Prop :=
+  ok s.done (epsScan eng R md s.done.length [] 0 0) (seedAt s.pend s.done.length)
+
+/-- every pass of `consume(word)` from state `s`: its columns and the scan of the exhausted fragment -/
+def feedOK (s : PState ι) (word : Units) : Prop :=
+  feedFromOK eng R md ok word 0 (8 * word.length) s ∧ lastOK eng R md ok (feed eng R md s word)
+
+/-- every pass of the runs that the chunking theorem compares (`rs` = the pieces in reverse order): feeding the
+    pieces one by one, feeding the concatenation of the first `i` pieces at once, and feeding the next piece
+    after that -/
+def chunkOK (s : PState ι) : List Units → Prop
+  | [] => True
+  | p :: rs => chunkOK s rs ∧ feedOK eng R md ok s rs.reverse.flatten ∧
+      feedOK eng R md ok s (rs.reverse.flatten ++ p) ∧
+      feedOK eng R md ok (feed eng R md s rs.reverse.flatten) p ∧
+      feedOK eng R md ok (rs.reverse.foldl (feed eng R md) s) p
+
+theorem feedFromOK_true (word : Units) : ∀ (n i : Nat) (s : PState ι),
+    feedFromOK eng R md (fun _ _ _ => True) word i n s
+  | 0, _, _ => trivial
+  | n + 1, i, s => ⟨trivial, feedFromOK_true word n (i + 1) _⟩
+
+theorem feedOK_true (s : PState ι) (word : Units) : feedOK eng R md (fun _ _ _ => True) s word :=
+  ⟨feedFromOK_true eng R md word _ _ _, trivial⟩
+
+theorem chunkOK_true (s : PState ι) : ∀ rs : List Units, chunkOK eng R md (fun _ _ _ => True) s rs
+  | [] => trivial
+  | _ :: rs => ⟨chunkOK_true s rs, feedOK_true eng R md _ _, feedOK_true eng R md _ _, feedOK_true eng R md _ _,
+      feedOK_true eng R md _ _⟩
+
+end okdefs
+
 section runs
 variable (eng : Engine ι) (R : ROracle) (md : Mode)
+variable {ok : List (Col ι) → (Entry ι → List (Entry ι)) → Col ι → Prop} {okc : List (Col ι) → Col ι → Prop}
 
 /-- the same-column scanner of a column, as the cut lemmas see it -/
 theorem epsOK (hR : CutStable R) (k : Nat) (rest : Units) (w len : Nat) (hlen : rest.length + w = len) :
@@ -1069,6 +1139,26 @@ theorem feedFrom_add (word : Units) : ∀ (p q i : Nat) (s : PState ι),
     have : i + 1 + p = i + (p + 1) := by omega
     rw [this]
 
+theorem feedFromOK_add (word : Units) : ∀ (p q i : Nat) (s : PState ι),
+    feedFromOK eng R md ok word i (p + q) s ↔
+      (feedFromOK eng R md ok word i p s ∧
+        feedFromOK eng R md ok word (i + p) q (feedFrom eng R md word i p s))
+  | 0, q, i, s => by simp [feedFromOK, feedFrom]
+  | p + 1, q, i, s => by
+    have : p + 1 + q = (p + q) + 1 := by omega
+    rw [this]
+    simp only [feedFromOK, feedFrom]
+    rw [feedFromOK_add word p q (i + 1)]
+    have : i + 1 + p = i + (p + 1) := by omega
+    rw [this, and_assoc]
+
+theorem feedFromOK_succ_end (word : Units) (n i : Nat) (s : PState ι) :
+    feedFromOK eng R md ok word i (n + 1) s ↔
+      (feedFromOK eng R md ok word i n s ∧
+        procOK eng R md ok word ((i + n) / 8) (feedFrom eng R md word i n s)) := by
+  rw [feedFromOK_add eng R md word n 1 i s]
+  simp only [feedFromOK, and_true]
+
 theorem feedFrom_done_length (word : Units) : ∀ (n i : Nat) (s : PState ι),
     (feedFrom eng R md word i n s).done.length = s.done.length + n
   | 0, _, _ => rfl
@@ -1091,12 +1181,12 @@ theorem seed_wf {s : PState ι} (hs : s.WF eng) (k : Nat) : ∀ e ∈ seedAt s.p
   exact hs _ he
 
 /-- the states of the column that is being processed are well formed -/
-theorem col_wf (hL : eng.Lawful) (hR : CutStable R) (word : Units) (w : Nat) (hw : w ≤ word.length)
+theorem col_wf (hL : eng.LawfulOn ok) (hR : CutStable R) (word : Units) (w : Nat) (hw : w ≤ word.length)
     {s : PState ι} (hs : s.WF eng) (k : Nat) :
     ∀ e ∈ eng.close s.done (epsScan eng R md k (word.drop w) w word.length) (seedAt s.pend k), e.WF eng :=
   hL.close_wf _ _ _ (seed_wf eng hs k) (epsOK eng R md hR k _ w _ (drop_len hw)).wf
 
-theorem procCol_wf (hL : eng.Lawful) (hR : CutStable R) (word : Units) (w : Nat) (hw : w ≤ word.length)
+theorem procCol_wf (hL : eng.LawfulOn ok) (hR : CutStable R) (word : Units) (w : Nat) (hw : w ≤ word.length)
     {s : PState ι} (hs : s.WF eng) : (procCol eng R md word w s).WF eng := by
   intro q hq
   rw [procCol_pend, List.mem_append] at hq
@@ -1107,28 +1197,31 @@ theorem procCol_wf (hL : eng.Lawful) (hR : CutStable R) (word : Units) (w : Nat)
     exact (scanEntry_out eng R md hR _ e (col_wf eng R md hL hR word w hw hs _ e he) _ _ _
       (drop_len hw) q.1 q.2 hx).1
 
-theorem feedFrom_wf (hL : eng.Lawful) (hR : CutStable R) (word : Units) : ∀ (n i : Nat) {s : PState ι},
+theorem feedFrom_wf (hL : eng.LawfulOn ok) (hR : CutStable R) (word : Units) : ∀ (n i : Nat) {s : PState ι},
     i + n ≤ 8 * word.length → s.WF eng → (feedFrom eng R md word i n s).WF eng
   | 0, _, _, _, h => h
   | n + 1, i, _, hin, h => by
     simp only [feedFrom]
     exact feedFrom_wf hL hR word n (i + 1) (by omega) (procCol_wf eng R md hL hR word (i / 8) (by omega) h)
 
-theorem feed_wf (hL : eng.Lawful) (hR : CutStable R) {s : PState ι} (hs : s.WF eng) (word : Units) :
+theorem feed_wf (hL : eng.LawfulOn ok) (hR : CutStable R) {s : PState ι} (hs : s.WF eng) (word : Units) :
     (feed eng R md s word).WF eng :=
   feedFrom_wf eng R md hL hR word _ 0 (by omega) hs
 
-theorem foldl_feed_wf (hL : eng.Lawful) (hR : CutStable R) : ∀ (pieces : List Units) {s : PState ι},
+theorem foldl_feed_wf (hL : eng.LawfulOn ok) (hR : CutStable R) : ∀ (pieces : List Units) {s : PState ι},
     s.WF eng → (pieces.foldl (feed eng R md) s).WF eng
   | [], _, h => h
   | p :: ps, _, h => foldl_feed_wf hL hR ps (feed_wf eng R md hL hR h p)
 
 /-! #### congruence -/
 
-theorem procCol_congr (hL : eng.Lawful) (hR : CutStable R) (word : Units) (w : Nat) (hw : w < word.length)
-    {s t : PState ι} (h : s.Equiv t) (hs : s.WF eng) :
+theorem procCol_congr (hL : eng.LawfulOn ok) (hR : CutStable R) (word : Units) (w : Nat) (hw : w < word.length)
+    {s t : PState ι} (h : s.Equiv t) (hs : s.WF eng)
+    (hos : procOK eng R md ok word w s) (hot : procOK eng R md ok word w t) :
     (procCol eng R md word w s).Equiv (procCol eng R md word w t) := by
   have hlen := forall2_length h.done
+  unfold procOK at hos hot
+  rw [← hlen] at hot
   have hseed : SetEq (seedAt s.pend s.done.length) (seedAt t.pend s.done.length) := by
     intro e
     rw [mem_seedAt, mem_seedAt]
@@ -1139,7 +1232,7 @@ theorem procCol_congr (hL : eng.Lawful) (hR : CutStable R) (word : Units) (w : N
         (seedAt t.pend s.done.length)) :=
     close_setEq hL (epsOK eng R md hR _ _ w _ (drop_len (by omega)))
       (epsScan_noinc eng R md hR _ _ (drop_ne_nil hw) w _ (drop_len (by omega)))
-      h.done hseed (seed_wf eng hs _)
+      hos hot h.done hseed (seed_wf eng hs _)
   constructor
   · rw [procCol_done, procCol_done, ← hlen]
     exact forall2_snoc h.done hcol.coreEq
@@ -1156,35 +1249,39 @@ theorem procCol_congr (hL : eng.Lawful) (hR : CutStable R) (word : Units) (w : N
       · exact Or.inl h1
       · exact Or.inr ⟨e', (hcol e').mpr he', h2⟩
 
-theorem feedFrom_congr (hL : eng.Lawful) (hR : CutStable R) (word : Units) : ∀ (n i : Nat) {s t : PState ι},
+theorem feedFrom_congr (hL : eng.LawfulOn ok) (hR : CutStable R) (word : Units) : ∀ (n i : Nat) {s t : PState ι},
     i + n ≤ 8 * word.length → s.Equiv t → s.WF eng →
+    feedFromOK eng R md ok word i n s → feedFromOK eng R md ok word i n t →
     (feedFrom eng R md word i n s).Equiv (feedFrom eng R md word i n t)
-  | 0, _, _, _, _, h, _ => h
-  | n + 1, i, _, _, hin, h, hs => by
+  | 0, _, _, _, _, h, _, _, _ => h
+  | n + 1, i, _, _, hin, h, hs, hos, hot => by
     simp only [feedFrom]
     exact feedFrom_congr hL hR word n (i + 1) (by omega)
-      (procCol_congr eng R md hL hR word (i / 8) (by omega) h hs)
-      (procCol_wf eng R md hL hR word (i / 8) (by omega) hs)
+      (procCol_congr eng R md hL hR word (i / 8) (by omega) h hs hos.1 hot.1)
+      (procCol_wf eng R md hL hR word (i / 8) (by omega) hs) hos.2 hot.2
 
-theorem feed_congr (hL : eng.Lawful) (hR : CutStable R) (word : Units) {s t : PState ι} (h : s.Equiv t)
-    (hs : s.WF eng) : (feed eng R md s word).Equiv (feed eng R md t word) :=
-  feedFrom_congr eng R md hL hR word _ 0 (by omega) h hs
+theorem feed_congr (hL : eng.LawfulOn ok) (hR : CutStable R) (word : Units) {s t : PState ι} (h : s.Equiv t)
+    (hs : s.WF eng) (hos : feedOK eng R md ok s word) (hot : feedOK eng R md ok t word) :
+    (feed eng R md s word).Equiv (feed eng R md t word) :=
+  feedFrom_congr eng R md hL hR word _ 0 (by omega) h hs hos.1 hot.1
 
-theorem lastCol_coreEq (hL : eng.Lawful) (hR : CutStable R) {s t : PState ι} (h : s.Equiv t)
-    (hs : s.WF eng) (ht : t.WF eng) : CoreEq (lastCol eng R md s) (lastCol eng R md t) := by
+theorem lastCol_coreEq (hL : eng.LawfulOn ok) (hR : CutStable R) {s t : PState ι} (h : s.Equiv t)
+    (hs : s.WF eng) (ht : t.WF eng) (hos : lastOK eng R md ok s) (hot : lastOK eng R md ok t) :
+    CoreEq (lastCol eng R md s) (lastCol eng R md t) := by
   have hlen := forall2_length h.done
+  unfold lastOK at hos hot
   unfold lastCol
-  rw [← hlen]
-  apply close_coreEq hL (epsOK eng R md hR _ [] 0 0 rfl) h.done _ (seed_wf eng hs _) (seed_wf eng ht _)
+  rw [← hlen] at hot ⊢
+  apply close_coreEq hL (epsOK eng R md hR _ [] 0 0 rfl) hos hot h.done _ (seed_wf eng hs _) (seed_wf eng ht _)
   apply SetEq.coreEq
   intro e
   rw [mem_seedAt, mem_seedAt]
   exact h.pend _ e (Nat.le_refl _)
 
-theorem completeParses_congr (hL : eng.Lawful) (hR : CutStable R) {s t : PState ι} (h : s.Equiv t)
-    (hs : s.WF eng) (ht : t.WF eng) :
+theorem completeParses_congr (hL : eng.LawfulOn ok) (hR : CutStable R) {s t : PState ι} (h : s.Equiv t)
+    (hs : s.WF eng) (ht : t.WF eng) (hos : lastOK eng R md ok s) (hot : lastOK eng R md ok t) :
     SetEq (completeParses eng R md s) (completeParses eng R md t) :=
-  hL.trees_core _ _ (lastCol_coreEq eng R md hL hR h hs ht)
+  hL.trees_core _ _ (lastCol_coreEq eng R md hL hR h hs ht hos hot)
 
 theorem resumable_congr {s t : PState ι} (h : s.Equiv t) : SetEq (resumable s) (resumable t) := by
   have hlen := forall2_length h.done
@@ -1207,20 +1304,37 @@ theorem procCol_shift (a b : Units) (hb : b ≠ []) (w : Nat) (s : PState ι) :
   unfold procCol scanCol
   simp only [heps, scanEntry_shift eng R md _ _ a b hb w]
 
-theorem feedFrom_shift (hL : eng.Lawful) (hR : CutStable R) (a b : Units) (hb : b ≠ []) :
+theorem procOK_shift (a b : Units) (hb : b ≠ []) (w : Nat) (s : PState ι) :
+    procOK eng R md ok (a ++ b) (a.length + w) s ↔ procOK eng R md ok b w s := by
+  have hdrop : (a ++ b).drop (a.length + w) = b.drop w := by
+    rw [List.drop_append]
+    simp
+  have heps : epsScan eng R md s.done.length ((a ++ b).drop (a.length + w)) (a.length + w) (a ++ b).length =
+      epsScan eng R md s.done.length (b.drop w) w b.length := by
+    funext e
+    unfold epsScan
+    rw [scanEntry_shift eng R md _ _ a b hb w]
+  unfold procOK
+  rw [heps]
+
+theorem feedFrom_shift (hL : eng.LawfulOn ok) (hR : CutStable R) (a b : Units) (hb : b ≠ []) :
     ∀ (q i : Nat) {s t : PState ι}, i + q ≤ 8 * b.length → s.Equiv t → s.WF eng →
+    feedFromOK eng R md ok (a ++ b) (8 * a.length + i) q s → feedFromOK eng R md ok b i q t →
     (feedFrom eng R md (a ++ b) (8 * a.length + i) q s).Equiv (feedFrom eng R md b i q t)
-  | 0, _, _, _, _, h, _ => h
-  | q + 1, i, s, t, hiq, h, hs => by
+  | 0, _, _, _, _, h, _, _, _ => h
+  | q + 1, i, s, t, hiq, h, hs, hos, hot => by
     simp only [feedFrom]
     have hw : (8 * a.length + i) / 8 = a.length + i / 8 := by omega
+    obtain ⟨hos1, hos2⟩ := hos
+    rw [hw] at hos1 hos2
+    rw [procCol_shift eng R md a b hb] at hos2
     rw [hw, procCol_shift eng R md a b hb]
-    have := feedFrom_shift hL hR a b hb q (i + 1) (by omega)
-      (procCol_congr eng R md hL hR b (i / 8) (by omega) h hs)
-      (procCol_wf eng R md hL hR b (i / 8) (by omega) hs)
     have hi : 8 * a.length + i + 1 = 8 * a.length + (i + 1) := by omega
-    rw [hi]
-    exact this
+    rw [hi] at hos2 ⊢
+    exact feedFrom_shift hL hR a b hb q (i + 1) (by omega)
+      (procCol_congr eng R md hL hR b (i / 8) (by omega) h hs
+        ((procOK_shift eng R md a b hb (i / 8) s).mp hos1) hot.1)
+      (procCol_wf eng R md hL hR b (i / 8) (by omega) hs) hos2 hot.2
 
 /-! #### resumption, membership -/
 
@@ -1300,13 +1414,17 @@ theorem sim_init (s : PState ι) (hwf : s.WF eng) (hset : s.Settled) (bd : Nat) 
       simp only at this; omega
 
 /-- one column before the cut -/
-theorem sim_step (hL : eng.Lawful) (hR : CutStable R) (a b : Units) (hb : b ≠ []) (k0 p : Nat)
+theorem sim_step (hL : eng.LawfulOn ok) (hR : CutStable R) (a b : Units) (hb : b ≠ []) (k0 p : Nat)
     (hp : p < 8 * a.length) (hk0 : k0 % 8 = 0) {sA sB : PState ι}
-    (h : Sim eng R md (k0 + 8 * a.length) b sA sB) (hk : sA.done.length = k0 + p) :
+    (h : Sim eng R md (k0 + 8 * a.length) b sA sB) (hk : sA.done.length = k0 + p)
+    (hoA : procOK eng R md ok (a ++ b) (p / 8) sA) (hoB : procOK eng R md ok a (p / 8) sB) :
     Sim eng R md (k0 + 8 * a.length) b (procCol eng R md (a ++ b) (p / 8) sA)
       (procCol eng R md a (p / 8) sB) := by
   have hlen := forall2_length h.done
   have hkB : sB.done.length = k0 + p := by rw [← hlen]; exact hk
+  unfold procOK at hoA hoB
+  rw [hk] at hoA
+  rw [hkB] at hoB
   have hw : p / 8 < a.length := by omega
   rw [procCol_eq eng R md _ _ sA _ hk, procCol_eq eng R md _ _ sB _ hkB]
   -- what is left of `a`
@@ -1341,8 +1459,9 @@ theorem sim_step (hL : eng.Lawful) (hR : CutStable R) (a b : Units) (hb : b ≠ 
         (seedAt sA.pend (k0 + p)))
       (eng.close sB.done (epsScan eng R md (k0 + p) (a.drop (p / 8)) (p / 8) a.length)
         (seedAt sB.pend (k0 + p))) :=
-    (close_eps_setEq hL hfAwf hAB hseedwfA).trans
-      (close_setEq hL hokB hniB (all2_setEq_coreEq h.done) hseed hseedwfA)
+    (close_eps_setEq hL hfAwf hAB hseedwfA hoA).1.trans
+      (close_setEq hL hokB hniB (close_eps_setEq hL hfAwf hAB hseedwfA hoA).2 hoB
+        (all2_setEq_coreEq h.done) hseed hseedwfA)
   have hwfcol : ∀ e ∈ eng.close sB.done (epsScan eng R md (k0 + p) (a.drop (p / 8)) (p / 8) a.length)
       (seedAt sB.pend (k0 + p)), e.WF eng :=
     hL.close_wf _ _ _ hseedwfB hokB.wf
@@ -1406,29 +1525,38 @@ theorem sim_step (hL : eng.Lawful) (hR : CutStable R) (a b : Units) (hb : b ≠ 
         omega
 
 /-- all columns before the cut -/
-theorem sim_phase1 (hL : eng.Lawful) (hR : CutStable R) (a b : Units) (hb : b ≠ []) (s : PState ι)
+theorem sim_phase1 (hL : eng.LawfulOn ok) (hR : CutStable R) (a b : Units) (hb : b ≠ []) (s : PState ι)
     (hwf : s.WF eng) (hset : s.Settled) (hk0 : s.done.length % 8 = 0) (ha : a ≠ []) :
-    ∀ p, p ≤ 8 * a.length →
+    ∀ p, p ≤ 8 * a.length → feedFromOK eng R md ok (a ++ b) 0 p s → feedFromOK eng R md ok a 0 p s →
       Sim eng R md (s.done.length + 8 * a.length) b (feedFrom eng R md (a ++ b) 0 p s)
         (feedFrom eng R md a 0 p s)
-  | 0, _ => by
+  | 0, _, _, _ => by
     have : 0 < a.length := List.length_pos_iff.mpr ha
     exact sim_init eng R md s hwf hset _ (by omega) b
-  | p + 1, hp => by
-    have ih := sim_phase1 hL hR a b hb s hwf hset hk0 ha p (by omega)
+  | p + 1, hp, hoA, hoB => by
+    rw [feedFromOK_succ_end] at hoA hoB
+    simp only [Nat.zero_add] at hoA hoB
+    have ih := sim_phase1 hL hR a b hb s hwf hset hk0 ha p (by omega) hoA.1 hoB.1
     rw [feedFrom_succ_end, feedFrom_succ_end]
     simp only [Nat.zero_add]
     have hlenp : (feedFrom eng R md (a ++ b) 0 p s).done.length = s.done.length + p :=
       feedFrom_done_length eng R md _ p 0 s
-    exact sim_step eng R md hL hR a b hb s.done.length p (by omega) hk0 ih hlenp
+    exact sim_step eng R md hL hR a b hb s.done.length p (by omega) hk0 ih hlenp hoA.2 hoB.2
 
 /-- the column at the cut: from here on both runs are in equivalent states -/
-theorem sim_handover (hL : eng.Lawful) (hR : CutStable R) (a b : Units) (hb : b ≠ []) (bd : Nat)
-    {sA sB : PState ι} (h : Sim eng R md bd b sA sB) (hk : sA.done.length = bd) :
+theorem sim_handover (hL : eng.LawfulOn ok) (hR : CutStable R) (a b : Units) (hb : b ≠ []) (bd : Nat)
+    {sA sB : PState ι} (h : Sim eng R md bd b sA sB) (hk : sA.done.length = bd)
+    (hoA : procOK eng R md ok (a ++ b) a.length sA) (hoB : procOK eng R md ok b 0 sB) :
     (procCol eng R md (a ++ b) a.length sA).Equiv (procCol eng R md b 0 sB) := by
   have hlen := forall2_length h.done
   have hkB : sB.done.length = bd := by rw [← hlen]; exact hk
   have hb0 : 0 < b.length := List.length_pos_iff.mpr hb
+  have hoA' : procOK eng R md ok b 0 sA := by
+    have := (procOK_shift eng R md (ok := ok) a b hb 0 sA).mp (by simpa using hoA)
+    exact this
+  unfold procOK at hoA' hoB
+  rw [hk] at hoA'
+  rw [hkB] at hoB
   have hsh := procCol_shift eng R md a b hb 0 sA
   simp only [Nat.add_zero] at hsh
   rw [hsh, procCol_eq eng R md _ _ sA _ hk, procCol_eq eng R md _ _ sB _ hkB]
@@ -1450,10 +1578,10 @@ theorem sim_handover (hL : eng.Lawful) (hR : CutStable R) (a b : Units) (hb : b 
   have hok := epsOK eng R md hR bd (b.drop 0) 0 b.length hblen
   have hni := epsScan_noinc eng R md hR bd (b.drop 0) hbne 0 b.length hblen
   have hdone := all2_setEq_coreEq h.done
-  have hcolcore := close_coreEq hL hok hdone hcore hseedwfA hseedwfB
-  have hincA := hL.close_inc sA.done _ (seedAt sA.pend bd)
+  have hcolcore := close_coreEq hL hok hoA' hoB hdone hcore hseedwfA hseedwfB
+  have hincA := hL.close_inc sA.done _ (seedAt sA.pend bd) hoA'
     (fun e he => hni e (hL.close_wf _ _ _ hseedwfA hok.wf e he))
-  have hincB := hL.close_inc sB.done _ (seedAt sB.pend bd)
+  have hincB := hL.close_inc sB.done _ (seedAt sB.pend bd) hoB
     (fun e he => hni e (hL.close_wf _ _ _ hseedwfB hok.wf e he))
   have hnoinc : ∀ e ∈ eng.close sA.done (epsScan eng R md bd (b.drop 0) 0 b.length) (seedAt sA.pend bd),
       e.inc = false := by
@@ -1502,8 +1630,10 @@ theorem sim_handover (hL : eng.Lawful) (hR : CutStable R) (a b : Units) (hb : b 
           exact (mem_core.mp this).1
 
 /-- **feeding `a` and then `b` reaches a state equivalent to feeding `a ++ b`** -/
-theorem feed_append (hL : eng.Lawful) (hR : CutStable R) (s : PState ι) (hwf : s.WF eng) (hset : s.Settled)
-    (hk0 : s.done.length % 8 = 0) (a b : Units) :
+theorem feed_append (hL : eng.LawfulOn ok) (hR : CutStable R) (s : PState ι) (hwf : s.WF eng) (hset : s.Settled)
+    (hk0 : s.done.length % 8 = 0) (a b : Units)
+    (hoW : feedOK eng R md ok s (a ++ b)) (hoA : feedOK eng R md ok s a)
+    (hoB : feedOK eng R md ok (feed eng R md s a) b) :
     (feed eng R md s (a ++ b)).Equiv (feed eng R md (feed eng R md s a) b) := by
   by_cases hb : b = []
   · subst hb
@@ -1514,17 +1644,29 @@ theorem feed_append (hL : eng.Lawful) (hR : CutStable R) (s : PState ι) (hwf : 
     simp only [List.nil_append]
     exact PState.Equiv.refl _
   have hb0 : 0 < b.length := List.length_pos_iff.mpr hb
-  unfold feed
-  have hphase1 := sim_phase1 eng R md hL hR a b hb s hwf hset hk0 ha (8 * a.length) (Nat.le_refl _)
-  -- split run A at the cut, and one column later
   obtain ⟨q, hq⟩ : ∃ q, 8 * b.length = 1 + q := ⟨8 * b.length - 1, by omega⟩
   have hsplitA : 8 * (a ++ b).length = 8 * a.length + (1 + q) := by
     simp only [List.length_append]; omega
+  -- the passes of the three runs, split the same way
+  have hoW1 := hoW.1
+  have hoA1 := hoA.1
+  have hoB1 := hoB.1
+  unfold feed at hoB1
+  rw [hsplitA, feedFromOK_add, feedFromOK_add] at hoW1
+  rw [hq, feedFromOK_add] at hoB1
+  simp only [Nat.zero_add] at hoW1 hoB1
+  obtain ⟨hoW1, hoW2, hoW3⟩ := hoW1
+  obtain ⟨hoB2, hoB3⟩ := hoB1
+  unfold feed
+  have hphase1 := sim_phase1 eng R md hL hR a b hb s hwf hset hk0 ha (8 * a.length) (Nat.le_refl _) hoW1 hoA1
+  -- split run A at the cut, and one column later
   rw [hsplitA, feedFrom_add, feedFrom_add, hq, feedFrom_add]
   simp only [Nat.zero_add]
   have hk : (feedFrom eng R md (a ++ b) 0 (8 * a.length) s).done.length = s.done.length + 8 * a.length :=
     feedFrom_done_length eng R md _ _ 0 s
+  have hdiv : 8 * a.length / 8 = a.length := by omega
   have hhand := sim_handover eng R md hL hR a b hb _ hphase1 hk
+    (by have := hoW2.1; rw [hdiv] at this; exact this) (by have := hoB2.1; simpa using this)
   have h1A : feedFrom eng R md (a ++ b) (8 * a.length) 1 (feedFrom eng R md (a ++ b) 0 (8 * a.length) s) =
       procCol eng R md (a ++ b) a.length (feedFrom eng R md (a ++ b) 0 (8 * a.length) s) := by
     simp only [feedFrom]
@@ -1537,21 +1679,24 @@ theorem feed_append (hL : eng.Lawful) (hR : CutStable R) (s : PState ι) (hwf : 
   have hwfA : (feedFrom eng R md (a ++ b) 0 (8 * a.length) s).WF eng :=
     feedFrom_wf eng R md hL hR (a ++ b) _ 0 (by simp only [List.length_append]; omega) hwf
   have hwfA1 := procCol_wf eng R md hL hR (a ++ b) a.length (by simp only [List.length_append]; omega) hwfA
-  exact feedFrom_shift eng R md hL hR a b hb _ 1 (by omega) hhand hwfA1
+  rw [h1A] at hoW3
+  rw [h1B] at hoB3
+  exact feedFrom_shift eng R md hL hR a b hb _ 1 (by omega) hhand hwfA1 hoW3 hoB3
 
 /-- **any way of cutting the input reaches an equivalent state** -/
-theorem chunking (hL : eng.Lawful) (hR : CutStable R) (s : PState ι) (hwf : s.WF eng) (hset : s.Settled)
-    (hk0 : s.done.length % 8 = 0) : ∀ (rs : List Units),
+theorem chunking (hL : eng.LawfulOn ok) (hR : CutStable R) (s : PState ι) (hwf : s.WF eng) (hset : s.Settled)
+    (hk0 : s.done.length % 8 = 0) : ∀ (rs : List Units), chunkOK eng R md ok s rs →
     (feed eng R md s rs.reverse.flatten).Equiv (rs.reverse.foldl (feed eng R md) s)
-  | [] => by
+  | [], _ => by
     simp only [List.reverse_nil, List.flatten_nil, List.foldl_nil]
     exact PState.Equiv.refl _
-  | p :: rs => by
+  | p :: rs, ho => by
+    obtain ⟨ho1, ho2, ho3, ho4, ho5⟩ := ho
     simp only [List.reverse_cons, List.flatten_append, List.flatten_cons, List.flatten_nil,
       List.append_nil, List.foldl_append, List.foldl_cons, List.foldl_nil]
-    have ih := chunking hL hR s hwf hset hk0 rs
-    exact (feed_append eng R md hL hR s hwf hset hk0 _ p).trans
-      (feed_congr eng R md hL hR p ih (feed_wf eng R md hL hR hwf _))
+    have ih := chunking hL hR s hwf hset hk0 rs ho1
+    exact (feed_append eng R md hL hR s hwf hset hk0 _ p ho3 ho2 ho4).trans
+      (feed_congr eng R md hL hR p ih (feed_wf eng R md hL hR hwf _) ho4 ho5)
 
 /-! #### `can_continue` -/
 
@@ -1565,7 +1710,7 @@ theorem seedAt_dead {s : PState ι} (h : s.Dead) : seedAt s.pend s.done.length =
   have := h _ he
   simp only at this; omega
 
-theorem procCol_dead (hC : eng.LawfulCC) (word : Units) (w : Nat) {s : PState ι} (h : s.Dead) :
+theorem procCol_dead (hC : eng.LawfulCCOn ok okc) (word : Units) (w : Nat) {s : PState ι} (h : s.Dead) :
     (procCol eng R md word w s).Dead := by
   intro p hp
   rw [procCol_pend, seedAt_dead h, hC.close_nil] at hp
@@ -1575,7 +1720,7 @@ theorem procCol_dead (hC : eng.LawfulCC) (word : Units) (w : Nat) {s : PState ι
   simp only [List.length_append, List.length_singleton]
   omega
 
-theorem feedFrom_dead (hC : eng.LawfulCC) (word : Units) : ∀ (n i : Nat) {s : PState ι}, s.Dead →
+theorem feedFrom_dead (hC : eng.LawfulCCOn ok okc) (word : Units) : ∀ (n i : Nat) {s : PState ι}, s.Dead →
     (feedFrom eng R md word i n s).Dead
   | 0, _, _, h => h
   | n + 1, i, _, h => by
@@ -1588,8 +1733,9 @@ theorem epsScan_want_none (k : Nat) (rest : Units) (w len : Nat) (e : Entry ι) 
   simp [epsScan, scanEntry, h, sameCol]
 
 /-- **`can_continue() = False` is final**: no non-empty further input yields a complete parse -/
-theorem canContinue_false_no_parse (hC : eng.LawfulCC) (s : PState ι) (hset : s.Settled)
-    (hcc : canContinue eng s = false) (v : Units) (hv : v ≠ []) :
+theorem canContinue_false_no_parse (hC : eng.LawfulCCOn ok okc) (s : PState ι) (hset : s.Settled)
+    (hcc : canContinue eng s = false) (v : Units) (hv : v ≠ [])
+    (hoP : procOK eng R md ok v 0 s) (hoC : okc s.done (seedAt s.pend s.done.length)) :
     completeParses eng R md (feed eng R md s v) = [] := by
   have hv0 : 0 < v.length := List.length_pos_iff.mpr hv
   unfold canContinue at hcc
@@ -1597,7 +1743,7 @@ theorem canContinue_false_no_parse (hC : eng.LawfulCC) (s : PState ι) (hset : s
   · cases hcc
   · rw [List.any_eq_false] at hcc
     have hstuck := hC.close_stuck s.done (epsScan eng R md s.done.length (v.drop 0) 0 v.length)
-      (seedAt s.pend s.done.length) (fun e he => epsScan_want_none eng R md _ _ _ _ e he) (by
+      (seedAt s.pend s.done.length) hoP hoC (fun e he => epsScan_want_none eng R md _ _ _ _ e he) (by
       intro e he
       have := hcc e he
       simp only [Bool.or_eq_true, Bool.not_eq_true', not_or, Bool.not_eq_true, Bool.not_eq_false] at this
@@ -1645,7 +1791,7 @@ theorem start_ready (i : ι) : (start i).Ready eng := by
     simp [start]
 
 /-- nothing is ever scheduled beyond the end of the fragment -/
-theorem feedFrom_le (hL : eng.Lawful) (hR : CutStable R) (a : Units) (s : PState ι)
+theorem feedFrom_le (hL : eng.LawfulOn ok) (hR : CutStable R) (a : Units) (s : PState ι)
     (hwf : s.WF eng) (hk0 : s.done.length % 8 = 0) (bd : Nat) (hbd : bd = s.done.length + 8 * a.length)
     (hle : ∀ q ∈ s.pend, q.1 ≤ bd) :
     ∀ p, p ≤ 8 * a.length → ∀ q ∈ (feedFrom eng R md a 0 p s).pend, q.1 ≤ bd
@@ -1675,7 +1821,7 @@ theorem feedFrom_le (hL : eng.Lawful) (hR : CutStable R) (a : Units) (s : PState
       · have := (h4 hwb).1
         omega
 
-theorem feed_ready (hL : eng.Lawful) (hR : CutStable R) (s : PState ι) (hs : s.Ready eng) (a : Units) :
+theorem feed_ready (hL : eng.LawfulOn ok) (hR : CutStable R) (s : PState ι) (hs : s.Ready eng) (a : Units) :
     (feed eng R md s a).Ready eng := by
   have hlen : (feedFrom eng R md a 0 (8 * a.length) s).done.length = s.done.length + 8 * a.length :=
     feedFrom_done_length eng R md _ _ 0 s
@@ -1785,9 +1931,9 @@ theorem mem_linClose {d : List (Col LinItem)} {s : Col LinItem} {x : Entry LinIt
 end lin
 
 theorem linEngine_lawful : linEngine.Lawful := by
-  refine ⟨?_, ?_, ?_, ?_, ?_⟩
+  refine ⟨fun _ _ _ _ _ _ => trivial, ?_, ?_, ?_, ?_, ?_⟩
   · -- close_eps
-    intro d f f' s h x
+    intro d f f' s _ h x
     rw [mem_linClose, mem_linClose]
     have hc : ∀ e ∈ s, linReach f (linMeasure e) e = linReach f' (linMeasure e) e := by
       intro e he
@@ -1798,7 +1944,7 @@ theorem linEngine_lawful : linEngine.Lawful := by
     · rintro ⟨e, he, hx⟩; exact ⟨e, he, by rw [← hc e he]; exact hx⟩
     · rintro ⟨e, he, hx⟩; exact ⟨e, he, by rw [hc e he]; exact hx⟩
   · -- close_inc
-    intro d f s h x hi
+    intro d f s _ h x hi
     rw [mem_linClose]
     constructor
     · rintro ⟨e, he, hx⟩
@@ -1810,7 +1956,7 @@ theorem linEngine_lawful : linEngine.Lawful := by
     · intro hx
       exact ⟨x, hx, linReach_self f _ _⟩
   · -- close_core
-    intro d d' f s s' _ hs h h'
+    intro d d' f s s' _ _ _ hs h h'
     have key : ∀ (t t' : Col LinItem) (dd : List (Col LinItem)), CoreEq t t' →
         (∀ e ∈ linEngine.close dd f t, e.inc = true → ∀ x ∈ f e, x = e) →
         ∀ x, x ∈ core (linEngine.close dd f t) → x ∈ core (linEngine.close d' f t') := by
@@ -1856,7 +2002,7 @@ theorem linEngine_lawful : linEngine.Lawful := by
 
 theorem linEngine_lawfulCC : linEngine.LawfulCC := by
   refine ⟨?_, fun _ _ => rfl, rfl⟩
-  intro d f s hf h x hx
+  intro d f s _ _ hf h x hx
   rw [mem_linClose] at hx
   obtain ⟨e, he, hxe⟩ := hx
   have hfin := (h e he).2
